@@ -13,7 +13,7 @@ for d in sorted(os.listdir(S)):
     meta = json.load(open(m)); db = meta.get("detected_by", [])
     if isinstance(db, dict): db = [db]
     chk = db[-1]["check"] if db else meta.get("property")
-    if d.endswith("neutralised"):
+    if d.endswith("neutralised") or meta.get("stale"):
         continue          # kept for the record only: written against code that later fix commits replaced
     expect = not (d.endswith("neutralised") or (db and "NOT DETECTED" in db[-1].get("result", "")))
     jobs.append((d, p, chk, expect))
